@@ -8,7 +8,9 @@
 //   penalty_alm_split lb(vec) ub(vec)                 (box D; m = size)
 //   f0 g0(vec)                                        (what eval_f(x0) / eval_g(x0) return)
 //   has_Sigma Sigma0(vec)   y0(vec)
-//   nscript  { status eps has_err err(vec) has_y y(vec) iterations sleep_ns }*
+//   nscript  { status eps has_err err(vec) has_y y(vec) iterations sleep_ns stop_alm }*
+//            stop_alm = 1: ALMSolver::stop() is called (on the ALM solver, as a user would) from inside this inner solve, which then
+//            returns the scripted status all the same (a request landing while the inner solve finishes with another status)
 // op "acc": accumulators of the five shipped inner solvers: two random stats added; reports sums / last values.
 #include <alpaqa/config/config.hpp>
 #include <alpaqa/implementation/outer/alm.tpp>
@@ -21,6 +23,7 @@
 #include <alpaqa/problem/functional-problem.hpp>
 #include <alpaqa/problem/type-erased-problem.hpp>
 #include <chrono>
+#include <functional>
 #include <thread>
 #include "vio.hpp"
 
@@ -38,6 +41,7 @@ struct ScriptItem {
     vec y;
     unsigned iterations;
     long sleep_ns;
+    bool stop_alm;
 };
 
 struct CallLog {
@@ -53,7 +57,10 @@ struct Session {
     std::vector<ScriptItem> script;
     std::vector<CallLog> calls;
     bool overrun    = false;
-    unsigned stops  = 0;
+    unsigned stops  = 0;            // number of times the outer solver forwarded stop() to the inner solver
+    unsigned stop_requests = 0;     // number of ALMSolver::stop() calls made from inside inner solves
+    std::function<void()> stopper;  // calls stop() on the ALM solver that owns this inner solver
+    std::vector<int> stopped_after; // per call: stop() had been requested by the time the call returned
 };
 
 struct ScriptedStats {
@@ -120,7 +127,12 @@ struct ScriptedInner {
                 y = it.y;
             if (it.sleep_ns > 0)
                 std::this_thread::sleep_for(ns{it.sleep_ns});
+            if (it.stop_alm && S->stopper) {
+                ++S->stop_requests;
+                S->stopper();
+            }
         }
+        S->stopped_after.push_back(S->stop_requests > 0);
         // make sure the clock visibly advances during every call
         clk::time_point t;
         do { t = clk::now(); } while (t <= c.t_entry);
@@ -173,6 +185,7 @@ static void run_alm(Json &j) {
         it.y          = vio::rvec<vec>();
         it.iterations = static_cast<unsigned>(vio::ri());
         it.sleep_ns   = vio::ri();
+        it.stop_alm   = vio::ri() != 0;
         S.script.push_back(std::move(it));
     }
     const length_t n = 1;
@@ -185,6 +198,7 @@ static void run_alm(Json &j) {
     prob.grad_g_prod = [&](crvec, crvec, rvec g) { g.setZero(); };
 
     alpaqa::ALMSolver<ScriptedInner> solver{P, ScriptedInner{.S = &S}};
+    S.stopper = [&solver] { solver.stop(); };
     vec x = vec::Zero(n), y = y0, Σ = Σ0;
     auto t_pre = clk::now();
     auto stats = hasΣ ? solver(prob, x, y, std::optional<rvec>{Σ}) : solver(prob, x, y);
@@ -200,7 +214,7 @@ static void run_alm(Json &j) {
         Json cj;
         cj.v("y", c.y_in).v("S", c.Sigma).v("err_in", c.err_in).d("tol", c.tol).i("outer_iter", c.outer_iter)
             .b("aor", c.always_overwrite).b("has_max_time", c.has_max_time).i("max_time_ns", c.max_time_ns)
-            .b("check", c.check).b("oot_lo", lo > P.max_time).b("oot_hi", hi > P.max_time);
+            .b("check", c.check).b("oot_lo", lo > P.max_time).b("oot_hi", hi > P.max_time).b("stopped", S.stopped_after[k] != 0);
         cs << (k ? "," : "") << cj.str();
     }
     cs << "]";
@@ -210,7 +224,7 @@ static void run_alm(Json &j) {
         .d("norm_penalty", stats.norm_penalty).i("elapsed_ns", stats.elapsed_time.count())
         .i("total_ns", std::chrono::duration_cast<ns>(t_post - t_pre).count())
         .i("acc_iterations", stats.inner.iterations).i("acc_calls", stats.inner.calls).d("acc_last_eps", stats.inner.last_ε)
-        .v("Sigma_out", Σ).v("y_out", y).b("overrun", S.overrun).i("n_f", n_f).i("n_g", n_g).i("stops", S.stops);
+        .v("Sigma_out", Σ).v("y_out", y).b("overrun", S.overrun).i("n_f", n_f).i("n_g", n_g).i("stops", S.stops).i("stop_requests", S.stop_requests);
 }
 
 // ---- shipped accumulators: two stats a, b are added; for every probed field the accumulated value is reported together
